@@ -8,7 +8,7 @@ from .. import driver
 from ..core import Ctx, coq_eval_shards, g_pair, g_str, pmap, proof_step
 
 ALPHA = ["a", " ", "\n", "\r", "\t", "'", '"', "\\", "\x00", "é", "\u2028", "\x7f", "\U0001F40D", "\ud800", "\xad", "n", "x"]
-CHUNKS = ALPHA + ["'''", '"""', " \n", "\\\n", "\r\n", "\\'", '\\"', "''", '""']
+CHUNKS = ALPHA + ["'''", '"""', " \n", "\t\n", " \t\n", "\\\n", "\r\n", "\\'", '\\"', "''", '""']
 
 
 def nonprintable_ranges():
@@ -137,7 +137,9 @@ def corr_literals(ctx: Ctx):
 # ----------------------------------------------------------------------------- end-to-end oracle
 
 PLACEMENTS = ("top", "list", "dict", "tuple", "dc")
-SETUPS = ("black", "noblack", "fmtcmd")
+SETUPS = ("black", "noblack", "fmtcmd", "stripcmd")
+# a format-command that does what many formatters / editors do to every line: strip trailing whitespace
+STRIP_CMD = "/venv/bin/python -c \"import sys; sys.stdout.write(chr(10).join(l.rstrip(chr(32) + chr(9)) for l in sys.stdin.read().split(chr(10))))\""
 HDR = "from inline_snapshot import snapshot\nfrom dataclasses import dataclass\n\n@dataclass\nclass DC:\n    a: object\n    b: object = 1\n\n"
 
 
@@ -173,6 +175,8 @@ def run_e2e(item):
         kw["block_black"] = True
     elif setup == "fmtcmd":
         kw["format_command"] = "/venv/bin/python -m black -q -"
+    elif setup == "stripcmd":
+        kw["format_command"] = STRIP_CMD
     res = driver.run_inproc({"test_a.py": src}, flags, **kw)
     out = {"session_exc": res["session_exc"], "module_exc": res["module_exc"], "tests": res["tests"], "bad": []}
     after = res["files"]["test_a.py"].decode("utf-8", "surrogateescape")
